@@ -318,6 +318,44 @@ pub fn extra_pool() -> Vec<File> {
             }
         }
     }
+    // literal variables defined inside a rule / block and used on the right-hand side of == and in, under all / some
+    {
+        let lv = |name: &str, v: V| Let { name: name.into(), val: Arg::Lit(v) };
+        let rv = |name: &str| Arg::Q(false, vec![Part::Var(name.into())]);
+        let bq = |q: Query, op: BinOp, some: bool, rhs: Arg| Clause::Binary { not: false, some, q, op, opneg: false, rhs, msg: None };
+        for (val, qs) in [
+            (i(1), vec![vec![key("a")], vec![key("a"), Part::All], vec![key("a"), Part::All, key("b")]]),
+            (l(vec![i(1), i(2)]), vec![vec![key("a")], vec![key("a"), Part::All], vec![key("a"), Part::All, key("a")]]),
+            (l(vec![i(1)]), vec![vec![key("a")], vec![key("a"), Part::All]]),
+            (s("x"), vec![vec![key("a")], vec![key("a"), key("b")], vec![key("a"), Part::All]]),
+        ] {
+            for q in qs {
+                for some in [false, true] {
+                    for op in [BinOp::Eq, BinOp::In] {
+                        let mut r = rule("r0", vec![vec![bq(q.clone(), op, some, rv("v"))], vec![lp[1].clone()]]);
+                        r.lets = vec![lv("v", val.clone())];
+                        out.push(file1(r));
+                        // the same inside a query block and a when block
+                        out.push(file1(rule("r0", vec![vec![Clause::Block { some: false, q: vec![Part::This], not_empty: false, lets: vec![lv("v", val.clone())], body: vec![vec![bq(q.clone(), op, some, rv("v"))]] }]])));
+                        out.push(file1(rule("r0", vec![vec![Clause::When { cond: vec![vec![un(a(), UnOp::Exists, false)]], lets: vec![lv("v", val.clone())], body: vec![vec![bq(q.clone(), op, some, rv("v"))]] }]])));
+                    }
+                }
+            }
+        }
+    }
+    // rules whose `when` guards hold queries that differ only inside a filter
+    {
+        let guard = |n: i64| vec![vec![un(vec![key("a"), Part::Filter(vec![vec![bin(vec![key("b")], BinOp::Eq, false, i(n))]])], UnOp::Empty, true)]];
+        let mut x = rule("rx", vec![vec![un(a(), UnOp::Exists, false)]]);
+        x.when = Some(guard(1));
+        let mut y = rule("ry", vec![vec![un(a(), UnOp::Exists, false)]]);
+        y.when = Some(guard(2));
+        let mut z = rule("rz", vec![vec![lp[0].clone()]]);
+        z.when = Some(vec![vec![un(vec![key("a"), Part::Filter(vec![vec![un(vec![key("a")], UnOp::Exists, false)]])], UnOp::Empty, true)]]);
+        out.push(File { lets: vec![], rules: vec![x.clone(), y.clone()], default: vec![] });
+        out.push(File { lets: vec![], rules: vec![x.clone(), y.clone(), z.clone(), rule("ru", vec![vec![named("rx")], vec![named("ry").with_not(true)]])], default: vec![] });
+        out.push(File { lets: vec![], rules: vec![rule("ru", vec![vec![named("ry")]]), z, y, x], default: vec![] });
+    }
     // keys that begin with a keyword of the language (or, OR, not, in, when, some, exists, keys, let, rule): the first token
     // of a line decides nothing about the line before it
     {
